@@ -24,11 +24,18 @@ DISTS = {
 
 
 class SW:
-    def __init__(self, prog: Program, n_t=3, labels=(), shift=None, tag=""):
+    def __init__(self, prog: Program, n_t=3, labels=(), shift=None, tag="", grid=None):
         self.prog, self.n_t, self.labels, self.tag = prog, n_t, tuple(labels), tag
         self.it = SymInterp(prog)
         sh = rat(0) if shift is None else shift
-        self.x = [Rat.sym(f"x{i}") + sh for i in range(n_t)]
+        self.prm_values = None      # {"A": number, "B": number}: concrete values for parameters given as a number
+        if grid == "unit":              # the concrete grid 0, 1, 2, ... (ages are numbers: a fixed lifetime's indicator is exactly 0 or 1)
+            self.x = [rat(i) + sh for i in range(n_t)]
+        elif grid == "equidistant":       # x0, x0+h, x0+2h, ...: every interval has the same (symbolic, positive) length
+            h = Rat.sym("h", "pos")
+            self.x = [Rat.sym("x0") + h * i + sh for i in range(n_t)]
+        else:
+            self.x = [Rat.sym(f"x{i}") + sh for i in range(n_t)]
         D = prog.cls("Dimension")
         self.tdim = self.it.construct(D, [], dict(name="Time", letter="t", items=list(self.x)))
         self.ldims = [self.it.construct(D, [], dict(name=l * 2, letter=l, items=[f"{l}{j}" for j in range(LABEL_SIZES[l])])) for l in self.labels]
@@ -59,6 +66,9 @@ class SW:
 
     def param(self, name, over, version="A", sign="pos"):
         """a lifetime parameter: 'number' | 'all' (cohort x labels) | 'labels' | 'time'"""
+        if over == "number" and self.prm_values and version in self.prm_values:
+            v = rat(self.prm_values[version])
+            return v, (lambda m, l, _v=v: _v)
         if over == "number":
             return Rat.sym(f"{name}{version}", sign), (lambda m, l, _n=name: Rat.sym(f"{_n}{version}", sign))
         FA = self.prog.cls("FlodymArray")
